@@ -262,11 +262,15 @@ NP = _NpProxy()
 _STATE = {'active': False, 'qgl': {}}
 
 
-def patch_np(*modules: Any) -> None:
-    """Replace the module global `np` of the given (already imported) modules by the proxy."""
+def patch_np(*modules: Any) -> list:
+    """Replace the module global `np` of the given (already imported) modules by the proxy.
+    Returns the modules actually patched (pass that list to unpatch_np: nested use is safe)."""
+    done = []
     for m in modules:
         if getattr(m, 'np', None) is np:
             m.np = NP
+            done.append(m)
+    return done
 
 
 def unpatch_np(*modules: Any) -> None:
